@@ -1227,6 +1227,7 @@ func c05Extras(c *Ctx) {
 	w := c.W
 	curveTableRule(c, "z/x509.signingParamsForPublicKey", "certificate, CSR and CRL signing")
 	sigParamsTableRule(c, "z/x509.signingParamsForPublicKey")
+	nullBytesRule(c, "z/x509")
 	fn := w.Fn("z/x509.signingParamsForPublicKey")
 	if fn == nil {
 		c.Undecided("R-PROV", "x509.signingParamsForPublicKey", "anchor", "-", "not found")
